@@ -28,13 +28,15 @@ type c07Cfg struct {
 	AfterDur   bool   // the canary duration has elapsed when it fails (auto mode)
 	Fault      string // none, status-reject, status-lost, crash-between, spec-reject, spec-lost, crash-before-spec
 	ExtraEdits bool   // a stray reconcile order: replica sets reconciled before the EDS after the failure
+	Hold       string // "", "frozen", "rolling-paused": the replacement of the canary pods is held back for three minutes after the failure
+	Unready    bool   // with Hold: the failed canary's pods stop being Ready while they wait
 }
 
 var c07Faults = []string{"none", "status-reject", "status-lost", "crash-between", "spec-reject", "spec-lost", "crash-before-status"}
 var c07Routes = []string{"command", "restarts", "timeout"}
 
 func (c c07Cfg) String() string {
-	return fmt.Sprintf("nodes=%d replicas=%s affinity=%v failBy=%s paused=%v afterDuration=%v fault=%s rsFirst=%v", c.Nodes, c.Replicas, c.Affinity, c.FailBy, c.Paused, c.AfterDur, c.Fault, c.ExtraEdits)
+	return fmt.Sprintf("nodes=%d replicas=%s affinity=%v failBy=%s paused=%v afterDuration=%v fault=%s rsFirst=%v hold=%q unready=%v", c.Nodes, c.Replicas, c.Affinity, c.FailBy, c.Paused, c.AfterDur, c.Fault, c.ExtraEdits, c.Hold, c.Unready)
 }
 
 func c07Run(rec *evid.Rec, f fataler, cfg c07Cfg) {
@@ -147,6 +149,10 @@ func c07Run(rec *evid.Rec, f fataler, cfg c07Cfg) {
 		}
 		return kind
 	}
+	holdKey := map[string]string{"frozen": oracle.AnnRolloutFrozen, "rolling-paused": oracle.AnnRollingPaused}[cfg.Hold]
+	if holdKey != "" {
+		_ = w.C.SetEDSAnnotation(k.Namespace, k.Name, holdKey, "true")
+	}
 	failedAt := w.C.Now()
 	switch cfg.FailBy {
 	case "command":
@@ -191,6 +197,34 @@ func c07Run(rec *evid.Rec, f fataler, cfg c07Cfg) {
 			failedAt = c.LastTransitionTime.Time
 		}
 	}
+	retention := func() {
+		// while younger than two minutes the failed replica set must still exist
+		if w.C.Now().Before(failedAt.Add(2*time.Minute-time.Second)) && w.C.ERS(k.Namespace, crs) == nil {
+			viol = append(viol, mon.V{Property: "C07", Monitor: "rollback", Sig: "C07/rollback/failed-set-gone-before-two-minutes", Detail: fmt.Sprintf("failed replica set %s no longer exists %s after it failed", crs, w.C.Now().Sub(failedAt))})
+		}
+	}
+	heldPods := 0
+	if holdKey != "" {
+		// the active replica set may not replace the canary pods yet: they stay (possibly not Ready) past the
+		// two-minute retention, and the failed set must be kept as long as it reports them (rs-gc monitor)
+		if cfg.Unready {
+			for _, p := range w.C.Pods() {
+				if p.Labels[oracle.LabelRSName] == crs {
+					w.C.Break(p.Namespace, p.Name)
+				}
+			}
+		}
+		for i := 0; i < 16 && !stop(); i++ {
+			w.fairRound("c07 held")
+			retention()
+		}
+		for _, p := range w.C.Pods() {
+			if p.Labels[oracle.LabelRSName] == crs && p.DeletionTimestamp == nil {
+				heldPods++
+			}
+		}
+		_ = w.C.SetEDSAnnotation(k.Namespace, k.Name, holdKey, "false")
+	}
 	// ---- bounded rounds, then the rollback must be complete
 	rolledBack := func() string {
 		cur := w.C.EDS(k.Namespace, k.Name)
@@ -219,10 +253,7 @@ func c07Run(rec *evid.Rec, f fataler, cfg c07Cfg) {
 	ok := false
 	for i := 0; i < 25 && !stop(); i++ {
 		w.fairRound("c07 rollback")
-		// retention: while younger than two minutes the failed replica set must still exist
-		if w.C.Now().Before(failedAt.Add(2*time.Minute-time.Second)) && w.C.ERS(k.Namespace, crs) == nil {
-			viol = append(viol, mon.V{Property: "C07", Monitor: "rollback", Sig: "C07/rollback/failed-set-gone-before-two-minutes", Detail: fmt.Sprintf("failed replica set %s no longer exists %s after it failed", crs, w.C.Now().Sub(failedAt))})
-		}
+		retention()
 		if rolledBack() == "" {
 			ok = true
 			break
@@ -250,6 +281,9 @@ func c07Run(rec *evid.Rec, f fataler, cfg c07Cfg) {
 	if cfg.AfterDur {
 		classes = append(classes, "after-duration")
 	}
+	if cfg.Hold != "" {
+		classes = append(classes, "hold-"+cfg.Hold, fmt.Sprintf("held-canary-pods-after-3min=%v", heldPods > 0))
+	}
 	nt := len(canaryNodes) > 0 && (cfg.Fault == "none" || window)
 	rec.Case(nt, evid.FP(cfg.String()), classes...)
 	rec.Steps(1)
@@ -260,7 +294,7 @@ func c07Run(rec *evid.Rec, f fataler, cfg c07Cfg) {
 }
 
 func TestC07Rollback(t *testing.T) {
-	rec := evid.New("TestC07Rollback", "C07", "history: first deployment, template change, canary up on its nodes, optional pause, optional elapsed duration, then the canary fails by {kubectl-eds canary fail, restart storm -> auto-fail, canaryTimeout}; the rollback reconcile meets a fault of the two-write window {none, status write rejected, status applied/answer lost, stop between the writes, spec write rejected, spec applied/answer lost, stop before the status write}; then fair rounds with advancing time; oracle: within 25 rounds spec.template = active template, status.canary nil, status.activeReplicaSet unchanged, every former canary node runs one Ready pod of the active template; the failed set exists for >= 2 minutes and is deleted only with an all-zero status (rs-gc monitor); non-trivial = a canary pod existed at failure time and (no fault requested or the fault hit the window); distinct by configuration")
+	rec := evid.New("TestC07Rollback", "C07", "history: first deployment, template change, canary up on its nodes, optional pause, optional elapsed duration, optionally rollout-frozen / rolling-update-paused for three minutes from the failure on (canary pods optionally not Ready meanwhile), then the canary fails by {kubectl-eds canary fail, restart storm -> auto-fail, canaryTimeout}; the rollback reconcile meets a fault of the two-write window {none, status write rejected, status applied/answer lost, stop between the writes, spec write rejected, spec applied/answer lost, stop before the status write}; then fair rounds with advancing time; oracle: within 25 rounds spec.template = active template, status.canary nil, status.activeReplicaSet unchanged, every former canary node runs one Ready pod of the active template; the failed set exists for >= 2 minutes and is deleted only with an all-zero status (rs-gc monitor); non-trivial = a canary pod existed at failure time and (no fault requested or the fault hit the window); distinct by configuration")
 	t.Cleanup(func() {
 		if !t.Failed() {
 			rec.Done()
@@ -269,14 +303,15 @@ func TestC07Rollback(t *testing.T) {
 	rapid.Check(t, func(rt *rapid.T) {
 		cfg := c07Cfg{Nodes: rapid.IntRange(2, 5).Draw(rt, "nodes"), Replicas: rapid.SampledFrom([]string{"1", "2", "50%"}).Draw(rt, "replicas"), Affinity: rapid.Bool().Draw(rt, "affinity"),
 			FailBy: rapid.SampledFrom(c07Routes).Draw(rt, "failBy"), Paused: rapid.Bool().Draw(rt, "paused"), AfterDur: rapid.Bool().Draw(rt, "afterDuration"),
-			Fault: rapid.SampledFrom(c07Faults).Draw(rt, "fault"), ExtraEdits: rapid.Bool().Draw(rt, "rsFirst")}
+			Fault: rapid.SampledFrom(c07Faults).Draw(rt, "fault"), ExtraEdits: rapid.Bool().Draw(rt, "rsFirst"),
+			Hold: rapid.SampledFrom([]string{"", "", "frozen", "rolling-paused"}).Draw(rt, "hold"), Unready: rapid.Bool().Draw(rt, "unready")}
 		c07Run(rec, rt, cfg)
 	})
 }
 
 // TestC07Window enumerates failure route x fault position x paused x after-duration completely (fixed size).
 func TestC07Window(t *testing.T) {
-	rec := evid.New("TestC07Window", "C07", "complete product {3 failure routes} x {7 fault positions of the rollback's two-write window} x {paused or not} x {duration elapsed or not} x {replica sets or EDS reconciled first} on a 3-node cluster with one canary node; oracle and non-triviality as TestC07Rollback")
+	rec := evid.New("TestC07Window", "C07", "complete product {3 failure routes} x {7 fault positions of the rollback's two-write window} x {paused or not} x {duration elapsed or not} x {replica sets or EDS reconciled first} x {no hold, rollout frozen, rolling update paused for three minutes with the canary pods not Ready} on a 3-node cluster with one canary node; oracle and non-triviality as TestC07Rollback")
 	failed := false
 	ff := &firstFail{t: t, failed: &failed}
 	for _, route := range c07Routes {
@@ -284,7 +319,9 @@ func TestC07Window(t *testing.T) {
 			for _, paused := range []bool{false, true} {
 				for _, after := range []bool{false, true} {
 					for _, rsFirst := range []bool{false, true} {
-						c07Run(rec, ff, c07Cfg{Nodes: 3, Replicas: "1", FailBy: route, Paused: paused, AfterDur: after, Fault: fault, ExtraEdits: rsFirst})
+						for _, hold := range []string{"", "frozen", "rolling-paused"} {
+							c07Run(rec, ff, c07Cfg{Nodes: 3, Replicas: "1", FailBy: route, Paused: paused, AfterDur: after, Fault: fault, ExtraEdits: rsFirst, Hold: hold, Unready: hold != ""})
+						}
 					}
 				}
 			}
